@@ -305,3 +305,102 @@ Lemma model_median_writeback : forall inv B w ny nx disp mask r c,
   fst (median_filter_disparity inv B w ny nx disp mask) r c
   = writeback inv disp mask (Filters.median_filter B w ny nx) r c.
 Proof. intros. reflexivity. Qed.
+
+(* ================================================================== BilateralFilter *)
+
+Lemma gauss_spatial_kernel_is : forall ngs k s, 0 <= k ->
+  is2 (g_gauss_spatial_kernel ngs k s) k k (fun a b => Some (ngs s (g_gauss_spatial_kernel_sqdist k a b))).
+Proof. intros. unfold g_gauss_spatial_kernel. apply tab2_2; assumption. Qed.
+
+(* the generated squared distance is the squared Euclidean distance to index k / 2 *)
+Lemma sqdist_is : forall k a b,
+  g_gauss_spatial_kernel_sqdist k a b = (a - k / 2) * (a - k / 2) + (b - k / 2) * (b - k / 2).
+Proof. intros. unfold g_gauss_spatial_kernel_sqdist. rewrite !Z.pow_2_r. lia. Qed.
+
+Lemma py_int_q_floor : forall q, (0 <= q)%Q -> py_int_q q = Qfloor q.
+Proof.
+  intros [n d] H. unfold py_int_q, Qfloor. cbn [Qnum Qden]. apply Z.quot_div_nonneg; [|lia].
+  unfold Qle in H. cbn in H. lia.
+Qed.
+
+(* the spatial table and the range kernel the generated code uses, as the model's data *)
+Definition gen_sk (ngs : Q -> Z -> Q) (ss : Q) (win : Z) : Z -> Z -> Q :=
+  fun a b => ngs ss (g_gauss_spatial_kernel_sqdist win a b).
+
+(* value of the generated filter_bilateral at a pixel, before any appeal to the kernel's sign *)
+Definition gen_bil_px (ng : Q -> Q -> Q) (ngs : Q -> Z -> Q) (ss sc : Q) (ny nx : Z) (data : Filters.map2) (r c : Z) : oq :=
+  let win := win_width ny nx ss in
+  let lo := win / 2 in
+  match data r c with
+  | None => None
+  | Some cv =>
+      if fits_b lo (win - 1 - lo) ny nx r c
+      then bil_formula (ng sc) (fun a b => data (r - lo + a) (c - lo + b))
+                       (fun a b => Some (gen_sk ngs ss win a b)) win lo
+      else Some cv
+  end.
+
+Theorem gen_filter_bilateral_at : forall sk ng ngs D ny nx data ss sc,
+  filter_skeleton_ok KBilateral sk = true -> (0 <= ss)%Q -> 1 <= win_width ny nx ss -> is2 D ny nx data ->
+  is2 (g_filter_bilateral ng ngs (skel_block_loop sk) D ss sc) ny nx (gen_bil_px ng ngs ss sc ny nx data).
+Proof.
+  intros sk ng ngs D ny nx data ss sc Hok Hss Hwin HD. unfold g_filter_bilateral. cbv zeta.
+  destruct (is2_shape _ _ _ _ _ HD) as (S0 & S1). rewrite S0, S1. unfold np_copy.
+  rewrite py_int_q_floor by (change (inject_Z 3) with 3%Q; change (inject_Z 1) with 1%Q; lra).
+  change (Z.min ny (Z.min nx (Qfloor (inject_Z 3 * ss + inject_Z 1)))) with (win_width ny nx ss).
+  set (win := win_width ny nx ss) in *.
+  destruct (win_width_le ny nx ss) as [Hy Hx]. fold win in Hy, Hx.
+  rewrite py_int_div_half by lia. set (lo := win / 2).
+  assert (Hlo : 0 <= lo < win) by (unfold lo; pose proof (Z.mul_div_le win 2); pose proof (Z.mul_succ_div_gt win 2); lia).
+  pose proof (sliding_window_4 _ D _ _ _ win win HD ltac:(lia) ltac:(lia)) as HW.
+  pose proof (gauss_spatial_kernel_is ngs win ss ltac:(lia)) as HG.
+  pose proof (skel_block_loop_is _ sk (fun X => g_bilateral_kernel ng X (g_gauss_spatial_kernel ngs win ss) sc lo)
+                _ _ _ _ _ _ _ _ _ Hok HW HD ltac:(lia) ltac:(lia) ltac:(lia)) as HL.
+  pose proof (setitem_mask_2 _ _ _ None _ _ _ _ HL (map2 _ _ o_none _ _ _ _ HD)) as HR.
+  eapply is2_ext; [exact HR|]. intros r c Hr Hc. cbv beta. unfold gen_bil_px. cbv zeta. fold win. fold lo.
+  destruct (data r c) as [cv|] eqn:Ed; cbn [o_none]; [|reflexivity].
+  unfold fits_b.
+  replace (r <? lo + (ny - win + 1)) with (r + (win - 1 - lo) <? ny)
+    by (destruct (Z.ltb_spec (r + (win - 1 - lo)) ny), (Z.ltb_spec r (lo + (ny - win + 1))); lia).
+  replace (c <? lo + (nx - win + 1)) with (c + (win - 1 - lo) <? nx)
+    by (destruct (Z.ltb_spec (c + (win - 1 - lo)) nx), (Z.ltb_spec c (lo + (nx - win + 1))); lia).
+  destruct ((lo <=? r) && (r + (win - 1 - lo) <? ny) && (lo <=? c) && (c + (win - 1 - lo) <? nx)) eqn:Ein; [|reflexivity].
+  destruct (gen_bilateral_kernel_chunk ng _ _ sc lo _ _ _ _ _ 0 (ny - win + 1) 0 (nx - win + 1) (r - lo) (c - lo) HW HG Hlo)
+    as (_ & _ & _ & E); try lia.
+  exact E.
+Qed.
+
+(* per pixel, for all inputs: generated = model, as rationals (the two sums are taken in the same
+   order but the products are written v * w in the code and w * v in the model), provided the
+   weights of the window do not sum to zero (the code then yields NaN or +-inf, the model 0 / 0;
+   excluded by kernel_ok: C10_gen_bilateral_eq_weighted_mean) *)
+Theorem gen_filter_bilateral_is_model : forall sk ng ngs D ny nx data ss sc,
+  filter_skeleton_ok KBilateral sk = true -> (0 <= ss)%Q -> 1 <= win_width ny nx ss -> is2 D ny nx data ->
+  let win := win_width ny nx ss in
+  let R := g_filter_bilateral ng ngs (skel_block_loop sk) D ss sc in
+  err R = false /\ shp R = [ny; nx] /\
+  forall r c, 0 <= r < ny -> 0 <= c < nx ->
+    (forall cv, data r c = Some cv ->
+       ~ (Spec.Filters.sumq (map fst (bil_terms (gen_sk ngs ss win) (ng sc) data win (r - win / 2) (c - win / 2) cv)) == 0)%Q) ->
+    oq_eq (elt R [r; c]) (Filters.filter_bilateral (sk_B sk) ny nx ss (gen_sk ngs ss win) (ng sc) data r c).
+Proof.
+  intros sk ng ngs D ny nx data ss sc Hok Hss Hwin HD win R.
+  destruct (gen_filter_bilateral_at sk ng ngs D ny nx data ss sc Hok Hss Hwin HD) as (He & Hs & Hg).
+  split; [exact He|]. split; [exact Hs|]. intros r c Hr Hc Hden. unfold R. rewrite Hg by assumption.
+  destruct (SkelFiltersP.filter_loop_params _ sk Hok) as (HB & _).
+  unfold Filters.filter_bilateral. fold win. destruct (win_width_le ny nx ss) as [Hy Hx]. fold win in Hy, Hx.
+  rewrite loop2_spec by lia. unfold gen_bil_px. cbv zeta. fold win. set (lo := win / 2) in *.
+  destruct (data r c) as [cv|] eqn:Ed; cbn [is_none]; [|exact I].
+  unfold fits_b.
+  replace (r <? lo + (ny - win + 1)) with (r + (win - 1 - lo) <? ny)
+    by (destruct (Z.ltb_spec (r + (win - 1 - lo)) ny), (Z.ltb_spec r (lo + (ny - win + 1))); lia).
+  replace (c <? lo + (nx - win + 1)) with (c + (win - 1 - lo) <? nx)
+    by (destruct (Z.ltb_spec (c + (win - 1 - lo)) nx), (Z.ltb_spec c (lo + (nx - win + 1))); lia).
+  destruct ((lo <=? r) && (r + (win - 1 - lo) <? ny) && (lo <=? c) && (c + (win - 1 - lo) <? nx)) eqn:Ein;
+    [|cbn; reflexivity].
+  pose proof (bil_formula_model (gen_sk ngs ss win) (ng sc) data win lo (r - lo) (c - lo)) as HF. cbv zeta in HF.
+  unfold bilateral_at. replace (r - lo + lo) with r in * by lia. replace (c - lo + lo) with c in * by lia.
+  rewrite Ed in *. specialize (Hden cv eq_refl).
+  destruct (Qeq_bool _ 0) eqn:E0 in HF; [apply Qeq_bool_iff in E0; contradiction|].
+  destruct HF as (x & -> & Hx'). exact Hx'.
+Qed.
